@@ -26,9 +26,9 @@ META = {
     "level_note": "Tolerances: 1e-9 (1e-7 for entropies; 1e-8 for default.tensor whose MPS uses SVDs, with max_bond_dim = 2^ceil(n/2) so that no "
                   "truncation occurs). States are compared exactly (including global phase). lightning.qubit (an external plug-in not named in the statement) is compared when importable under non-deciding monitors; its exceptions are only counted. "
                   "Finite-shot agreement is C29's subject; only null.qubit's shapes are checked with shots.",
-    "shards": {"quick": 3, "thorough": 12},
-    "budget_s": {"quick": 110, "thorough": 240},
-    "min_evals": {"quick": 800, "thorough": 20000},
+    "shards": {"quick": 3, "thorough": 9},
+    "budget_s": {"quick": 110, "thorough": 180},
+    "min_evals": {"quick": 800, "thorough": 5000},
     "deciding": ["agree.pair", "agree.ref", "null.shape"],
     "rule": "case = (circuit spec, profile, device); distinct = content fingerprint x device; non-trivial = reference final state is a superposition "
             "(>= 2 amplitudes) or the circuit is broadcast",
@@ -211,6 +211,8 @@ def run(ctx):
                     return "default.tensor:paulirot-mpo-unsorted-sites"
             if "reference.qubit" in mech and kinds & {"vn", "mi"}:
                 return "entropy-ignores-wire-order:reference.qubit"
+            if "reference.qubit" in mech and any(k in repr(spec["meas"]) for k in ("'herm'", "'projvec'", "'sparse'")):
+                return "reference.qubit:undiagonalized-observable"
             if "default.clifford" in mech and "SX" in gen.spec_kinds(spec):
                 return "default.clifford:stim-gate-name:SX"
             if "default.clifford" in mech and mech.endswith(":probs"):
